@@ -9,7 +9,7 @@ EXTENDS Expr, Json, IOUtils
 
 NoDev == {}
 AsIsDev == {"NoExceptionBarrier", "UnaryAfterE", "TrailingTokensIgnored",
-            "ModFollowsDivisor", "RoundPythonBuiltin"}
+            "ModFollowsDivisor", "RoundPythonBuiltin", "EIntegerLoopUnbounded"}
 
 Events == JsonDeserialize(IOEnv.TRACE_FILE).events
 
